@@ -59,6 +59,9 @@ G0 == [ sc      |-> "none",
         laststmt|-> <<>>,      \* client -> last accepted statement
         taken   |-> <<>>,      \* version set -> rows visible when s3db_version() returned it (C11)
         attr    |-> <<>>,      \* client -> [deadline, write_time] expected from s3db_conn
+        lastcut |-> <<>>,      \* client -> cutoff of its last successful vacuum
+        stepdel |-> <<>>,      \* client -> version tokens it DELETEd during the current API call
+        reachb  |-> <<>>,      \* version token -> nodes it reached at the last `reach` tagged "before"
         cfail   |-> {},        \* clients whose last COMMIT failed (SQLite rolled the transaction back)
         fault   |-> {}         \* clients with an active fault / crash plan
       ]
@@ -93,7 +96,7 @@ V(prop, pred, e, detail) ==
 (* a predicate that several properties share *)
 VAll(ps, suffix, e, detail) == UNION {V(p, p \o suffix, e, detail) : p \in ps}
 
-IdealProps == {"C02", "C04", "C05", "C08", "C09", "C10", "C11", "C13", "C15", "C16"}
+IdealProps == {"C02", "C04", "C05", "C08", "C09", "C10", "C11", "C13", "C14", "C15", "C16"}
 NoFault(c) == c \notin g.fault
 
 CheckRows(e, c, facts, rows, where) ==
@@ -124,9 +127,9 @@ OnS3(e) ==
             ELSE IF e.op = "PUT" /\ e.res = "ok" /\ e.cls = "mrg"
             THEN [g EXCEPT !.mrg = @ \cup {e.name}]
             ELSE IF e.op = "DELETE" /\ e.res = "ok" /\ e.cls = "cur"
-            THEN [g EXCEPT !.cur = @ \ {e.name}]
+            THEN [g EXCEPT !.cur = @ \ {e.name}, !.stepdel = Put(@, c, Get(@, c, {}) \cup {<<"cur", e.name>>})]
             ELSE IF e.op = "DELETE" /\ e.res = "ok" /\ e.cls = "mrg"
-            THEN [g EXCEPT !.mrg = @ \ {e.name}]
+            THEN [g EXCEPT !.mrg = @ \ {e.name}, !.stepdel = Put(@, c, Get(@, c, {}) \cup {<<"mrg", e.name>>})]
             ELSE g
       ro == Get(g.cmode, c, "rw") \in {"ro", "hist"}
   IN [g2 |-> g1,
@@ -311,11 +314,22 @@ OnDump(e) ==
                      TS == {x.modns : x \in {y \in ents : y.key \in K}} IN
                  IF Cardinality(TS) > 1 THEN V("C05", "C05_OneWriteTime", e, [times |-> TS]) ELSE {}
             ELSE {}
-  IN IF e.outcome # "ok" THEN [g2 |-> g, v |-> Unexpected(e, "dump")] ELSE [g2 |-> g1, v |-> v1 \cup v2]
+      cut == Get(g.lastcut, c, 0)
+      facts == Get(g.cfacts, c, {})
+      deadkeys == {k \in {f.key : f \in facts} : ~R!IdealLive({f \in facts : f.key = k}) /\ \E f \in facts : f.key = k /\ f.kind \in {"ins", "del"}}
+      v3 == IF Has(e, "tag") /\ e.tag = "vacdump"
+            THEN (IF \E x \in ents : x.tomb \/ (~x.live /\ x.st < cut)
+                  THEN V("C10", "C10_NoOldMarkers", e, [cutoff |-> cut, entries |-> {x \in ents : x.tomb \/ (~x.live /\ x.st < cut)}]) ELSE {})
+                 \cup (IF \E k \in deadkeys : ~(\E x \in ents : x.key = k /\ ~x.live /\ ~x.tomb)
+                       THEN V("C10", "C10_MarkerKept", e, [cutoff |-> cut, keys |-> {k \in deadkeys : ~(\E x \in ents : x.key = k /\ ~x.live /\ ~x.tomb)}]) ELSE {})
+            ELSE {}
+  IN IF e.outcome # "ok" THEN [g2 |-> g, v |-> Unexpected(e, "dump")] ELSE [g2 |-> g1, v |-> v1 \cup v2 \cup v3]
 
 OnKVDump(e) ==
   LET c == e.c IN
-  IF e.outcome # "ok" THEN [g2 |-> g, v |-> Unexpected(e, "open of named versions")]
+  IF e.outcome # "ok"
+  THEN \* a named version that vacuum reclaimed may be unreadable; one that is still in the bucket must not be
+       [g2 |-> g, v |-> IF e.has_only /\ ~(Range(e.only) \subseteq (g.cur \cup g.mrg)) THEN {} ELSE Unexpected(e, "open of named versions")]
   ELSE
   LET only == Range(e.only)
       rows == DumpRows(e.entries)
@@ -332,9 +346,20 @@ OnKVDump(e) ==
   IN [g2 |-> g, v |-> v1 \cup v2 \cup v3]
 
 OnReach(e) ==
-  LET bad == {e.versions[i] : i \in {j \in DOMAIN e.versions : Len(e.versions[j].missing) > 0 \/ Len(e.versions[j].undecodable) > 0}}
-  IN [g2 |-> g,
-      v |-> IF bad # {} THEN VAll({"C16", "C09", "C04"}, "_AllReachableExist", e, bad) ELSE {}]
+  LET vs == {e.versions[i] : i \in DOMAIN e.versions}
+      \* after a crash only the current versions are demanded (tag "crash"); otherwise every retained version
+      scope == IF Has(e, "tag") /\ e.tag = "crash" THEN {x \in vs : x.cls = "cur"} ELSE vs
+      bad == {x \in scope : Len(x.missing) > 0 \/ Len(x.undecodable) > 0}
+      isBefore == Has(e, "tag") /\ e.tag = "before"
+      isAfter == Has(e, "tag") /\ e.tag = "after"
+      g1 == IF isBefore THEN [g EXCEPT !.reachb = [n \in {x.name : x \in vs} |-> Range((CHOOSE x \in vs : x.name = n).nodes)]] ELSE g
+      present == {x.name : x \in vs}
+      needed == UNION {Range(x.nodes) : x \in vs}
+      reclaimed == DOMAIN g.reachb \ present
+      orphan == {n \in Range(e.nodes) : n \notin needed /\ \E p \in reclaimed : n \in g.reachb[p]}
+  IN [g2 |-> g1,
+      v |-> (IF bad # {} THEN VAll({"C16", "C09", "C04", "C05"}, "_AllReachableExist", e, bad) ELSE {})
+            \cup (IF isAfter /\ orphan # {} THEN V("C10", "C10_NoOrphanOnlyTheyNeeded", e, [orphans |-> orphan, reclaimed |-> reclaimed]) ELSE {})]
 
 OnBucket(e) ==
   [g2 |-> g,
@@ -352,6 +377,47 @@ OnConnGet(e) ==
   IN [g2 |-> g,
       v |-> IF e.outcome # "ok" \/ e.deadline # a.deadline \/ e.write_time # a.write_time
             THEN V("C15", "C15_ReadBack", e, [expected |-> a, deadline |-> e.deadline, write_time |-> e.write_time]) ELSE {}]
+
+(* s3db_vacuum *)
+RECURSIVE AncOf(_, _)
+AncOf(S, exist) == LET T == S \cap exist IN
+                   IF T = {} THEN {} ELSE T \cup AncOf((UNION {Get(g.vpar, v, {}) : v \in T}) \ T, exist \ T)
+
+OnVacuum(e) ==
+  LET c == e.c
+      ro == Get(g.cmode, c, "rw") \in {"ro", "hist"}
+  IN IF e.outcome # "ok"
+     THEN \* a vacuum that failed after its purge commit: the version it PUT holds the purged view
+          LET fr0 == Get(g.fresh, c, <<>>)
+              pf0 == R!Purge(Get(g.cfacts, c, {}), e.cutoff)
+              vf0 == [x \in DOMAIN g.vfacts \cup Range(fr0) |-> IF x \in Range(fr0) THEN pf0 ELSE g.vfacts[x]]
+          IN [g2 |-> [g EXCEPT !.vfacts = vf0, !.fresh = Put(@, c, <<>>), !.stepdel = Put(@, c, {})],
+              v |-> IF ro THEN {} ELSE Unexpected(e, "s3db_vacuum")]
+     ELSE
+     LET cutoff == e.cutoff
+         pf == R!Purge(Get(g.cfacts, c, {}), cutoff)
+         fr == Get(g.fresh, c, <<>>)
+         vf2 == [x \in DOMAIN g.vfacts \cup Range(fr) |-> IF x \in Range(fr) THEN pf ELSE g.vfacts[x]]
+         del == Get(g.stepdel, c, {})
+         delm == {d[2] : d \in {x \in del : x[1] = "mrg"}}
+         exist == g.cur \cup g.mrg \cup {d[2] : d \in del}
+         graph == AncOf(Range(e.version), exist)
+         children(p) == {x \in graph : p \in Get(g.vpar, x, {})}
+         cand == {p \in graph : children(p) # {} /\ \A x \in children(p) : Get(g.vcre, x, 0) <= cutoff}
+         g1 == [g EXCEPT !.vfacts = vf2, !.cfacts = Put(@, c, pf), !.cpend = Put(@, c, {}),
+                         !.cver = Put(@, c, Range(e.version)), !.fresh = Put(@, c, <<>>),
+                         !.lastcut = Put(@, c, cutoff), !.stepdel = Put(@, c, {})]
+         v1 == IF ro THEN V("C13", "C13_WriteFails", e, [kind |-> "vacuum", outcome |-> e.outcome]) ELSE {}
+         \* repeating the same vacuum changes nothing in the bucket (re-deleting an absent object is not a change)
+         v2 == IF Has(e, "tag") /\ e.tag = "again" /\ e.dme > 0
+               THEN V("C10", "C10_Idempotent", e, [effective_mutations |-> e.dme]) ELSE {}
+         v3 == IF cand \cap g.mrg # {}
+               THEN V("C10", "C10_OldVersionsGone", e, [cutoff |-> cutoff, still_there |-> cand \cap g.mrg]) ELSE {}
+         v4 == IF \E x \in delm : Get(g.vcre, x, 0) > cutoff
+               THEN V("C09", "C09_KeepsNewerVersions", e, [cutoff |-> cutoff, deleted |-> {x \in delm : Get(g.vcre, x, 0) > cutoff}]) ELSE {}
+         v5 == IF ~(delm \subseteq cand)
+               THEN V("C09", "C09_OnlySupersededDeleted", e, [cutoff |-> cutoff, deleted |-> delm \ cand]) ELSE {}
+     IN [g2 |-> g1, v |-> v1 \cup v2 \cup v3 \cup v4 \cup v5]
 
 OnPlan(e) == [g2 |-> [g EXCEPT !.fault = @ \cup {e.c}], v |-> {}]
 OnHeal(e) == [g2 |-> [g EXCEPT !.fault = @ \ {e.c}], v |-> {}]
@@ -377,6 +443,7 @@ Handle(e) ==
     [] e.ev = "bucket"     -> OnBucket(e)
     [] e.ev = "conn_set"   -> OnConnSet(e)
     [] e.ev = "conn_get"   -> OnConnGet(e)
+    [] e.ev = "vacuum"     -> OnVacuum(e)
     [] e.ev = "plan"       -> OnPlan(e)
     [] e.ev = "heal"       -> OnHeal(e)
     [] e.ev \in {"panic", "hang"} -> OnPanic(e)
